@@ -1,5 +1,6 @@
 import Driver.Proto
 import Gotree.Spec.C01
+import Gotree.Model.C01Lit
 
 /-
   Handler of the C01 case lines (see harness/c01/c01.go for the producer).
@@ -7,6 +8,7 @@ import Gotree.Spec.C01
     C01.rt     dump(orig)  text1  outcome  dump(reread)  text2
     C01.parse  text  outcome  dump(tree)                       (malformed / odd texts: tie only)
     C01.float  literal  class  value  fmt  back                 (strconv against goCodec, and the codec laws on strconv's own output)
+    C01.multi  text  outcome-classes  dumps                      (one Parser, Parse() until it fails: tie only)
     C01.utf8   name-bytes  outcome  reread-name-bytes  text1  text2   (defect F2)
 -/
 namespace Gotree.Driver.C01
@@ -63,7 +65,10 @@ def handle (op : String) (f : List String) : Verdict :=
     match T.undump dump, unescape text1e, unescape text2e with
     | some t, some text1, some text2 =>
       let wf := WF01 goCodec.isFloat isF64 t
-      let tags := tagIf wf "wf01" ++ tagIf (!wf) "nonwf" ++ treeTags t
+      -- the hypothesis of theorem `parse_write_goS` (executable codec, structural domain: all four laws proved)
+      let godom := wf && WF01 goCodec.isFloat goDomS t
+      let tags := tagIf wf "wf01" ++ tagIf (!wf) "nonwf" ++ tagIf godom "godom" ++ treeTags t
+      if wf && !godom then ⟨.tie, tags, "a finite float64 value of the tree is outside the domain goDomS of the model codec"⟩ else
       -- the model
       let mtext := writeStr goCodec t
       let mparse := parseStr goCodec text1
@@ -97,6 +102,12 @@ def handle (op : String) (f : List String) : Verdict :=
     | some text =>
       let m := parseStr goCodec text
       let mc := outcomeClass m
+      -- the literal node-stack machine (variables node/edge, nil edges) is run next to the functional one
+      let ml := Lit.parseL goCodec text.toList
+      let litSame := match m, ml with
+        | .ok a, .ok b => a.dump == b.dump
+        | a, b => outcomeClass a == outcomeClass b && mc != "ok"
+      if !litSame then ⟨.tie, [mc], "literal node-stack machine differs: " ++ outcomeClass ml⟩ else
       let tags := [mc] ++ tagIf (text.length > 3 && mc == "ok") "nontrivial"
       match m with
       | .unrep _ =>
@@ -111,6 +122,28 @@ def handle (op : String) (f : List String) : Verdict :=
       | _ =>
         if (if isPrefixStr "panic" outcome then "panic" else outcome) == mc then ⟨.pass, tags, ""⟩
         else ⟨.tie, tags, "model " ++ mc ++ ", implementation " ++ outcome⟩
+  | "multi", [texte, classes, dumps] =>
+    match unescape texte with
+    | none => bad "C01.multi text"
+    | some text =>
+      let cls := if classes == "" then [] else classes.splitOn ","
+      let ds := if dumps == "" then [] else dumps.splitOn "|"
+      -- the model: Parse() again and again on the same reader, as many calls as the harness made
+      let ms := (parseMany goCodec text.toList).take cls.length
+      let mcls := ms.map outcomeClass
+      let nok := (mcls.filter (· == "ok")).length
+      let tags := ["multi" ++ toString nok] ++ tagIf (nok ≥ 2) "nontrivial"
+      -- an `unrep` of the model stands for a Go success with a non-finite value: compare up to there
+      if mcls.contains "unrep" then
+        (if (dumps.splitOn "inf").length > 1 || (dumps.splitOn "nan").length > 1 then ⟨.pass, "unrep" :: tags, ""⟩
+         else ⟨.tie, tags, "model unrep, implementation " ++ classes⟩)
+      else if mcls != cls.map (fun c => if isPrefixStr "panic" c then "panic" else c) then
+        ⟨.tie, tags, "model outcomes " ++ ",".intercalate mcls⟩
+      else
+        let mds := ms.filterMap fun o => match o with | .ok t => some t.dump | _ => none
+        match ds.mapM T.undump with
+        | none => bad "C01.multi dumps"
+        | some ts => if ts.map T.dump == mds then ⟨.pass, tags, ""⟩ else ⟨.tie, tags, "model trees " ++ "|".intercalate mds⟩
   | "float", [lite, cls, val, fmte, back] =>
     match unescape lite, unescape fmte with
     | some lit, some ftext =>
@@ -131,6 +164,7 @@ def handle (op : String) (f : List String) : Verdict :=
           else if v == 0 && ft == "-0".toList then ⟨.pass, "negzero" :: tags, ""⟩   -- -0.0 has no counterpart in Rat (assumption)
           else if goCodec.fmt v != ft then ⟨.tie, tags, "model fmt " ++ String.ofList (goCodec.fmt v)⟩
           else if !(isF64 v) then ⟨.tie, tags, "model isF64"⟩
+          else if !(goDomS v) then ⟨.tie, tags, "a float64 value outside goDomS (domain of the proved codec laws)"⟩
           else if !(goCodec.isFloat ft) || goCodec.parse ft != some v then ⟨.tie, tags, "model does not read its own text"⟩
           else ⟨.pass, tags, ""⟩
         | _, _ => bad "C01.float numbers"
